@@ -69,6 +69,12 @@ type Obj struct {
 	site   string
 }
 
+func (o *Obj) ensure() {
+	if o.bytes == nil {
+		o.bytes = make([]*Term, o.size)
+	}
+}
+
 func (o *Obj) base() uint64 { return uint64(o.id+1) << objShift }
 
 var sizes = types.SizesFor("gc", "amd64")
@@ -79,7 +85,7 @@ func (st *State) newObj(size int, kind, label string) *Obj {
 	if size >= objMaxSize {
 		st.abort(abUnsupported, fmt.Sprintf("object too large: %d bytes (%s)", size, label))
 	}
-	o := &Obj{id: len(st.objs), size: size, bytes: make([]*Term, size), kind: kind, label: label, owner: st.curThreadID()}
+	o := &Obj{id: len(st.objs), size: size, kind: kind, label: label, owner: st.curThreadID()}
 	st.objs = append(st.objs, o)
 	st.nAllocs++
 	return o
@@ -108,6 +114,9 @@ func (st *State) resolve(addr uint64, n int, what string) (*Obj, int) {
 }
 
 func (st *State) byteAt(o *Obj, off int) *Term {
+	if o.bytes == nil {
+		return st.zero8
+	}
 	if b := o.bytes[off]; b != nil {
 		return b
 	}
@@ -131,6 +140,12 @@ func (st *State) storeBits(addr uint64, n int, v *Term) {
 	}
 	o, off := st.resolve(addr, n, "store")
 	st.noteAccess(o, off, n, true)
+	if o.bytes == nil {
+		if v.IsConst() && v.C == 0 {
+			return
+		}
+		o.bytes = make([]*Term, o.size)
+	}
 	for i := 0; i < n; i++ {
 		b := st.c.Extract(v, 8*i+7, 8*i)
 		if b.IsConst() && b.C == 0 {
@@ -468,6 +483,7 @@ func (st *State) constString(s string) StrV {
 		return v
 	}
 	o := st.newObj(len(s), "const", "string const")
+	o.ensure()
 	o.owner = -1
 	for i := 0; i < len(s); i++ {
 		if s[i] != 0 {
